@@ -73,7 +73,7 @@ def run(ctx: core.Ctx) -> int:
     # same arguments to Model.model / process_jacobian / control_jacobian
     calls = {c["callee"]: c for c in it.calls if c["callee"] in
              ("Model.model", "ExtendedKalmanFilter.process_jacobian", "ExtendedKalmanFilter.control_jacobian")
-             and "process_model" in c.get("where", "")}
+             and ("process_model" in c.get("where", "") or any(f_.endswith(".process_model") for f_ in c.get("stack", ())))}
     expect = {"dt": "DT", "state": "x", "control": "u"}
     for callee in ("Model.model", "ExtendedKalmanFilter.process_jacobian", "ExtendedKalmanFilter.control_jacobian"):
         c = calls.get(callee)
@@ -88,7 +88,7 @@ def run(ctx: core.Ctx) -> int:
     mod = it.p.modules["python"]
     cls = core.need(core.find_class(mod, "ExtendedKalmanFilter"), "python.ExtendedKalmanFilter")
     fn = core.need(core.find_func(cls, "_construct_process"), "ExtendedKalmanFilter._construct_process")
-    keymat.check_function(ctx, file, "ExtendedKalmanFilter._construct_process", fn, "process_noise")
+    keymat.check_function(ctx, file, "ExtendedKalmanFilter._construct_process", fn, "process_noise", mod=mod, cls=cls)
     pn = sc.ekf.attrs.get("process_noise")
     C = Layout((("SORT", "CONTROL", "name"),))
     ok = isinstance(pn, ArrV) and pn.rows == C and pn.cols == C
